@@ -528,7 +528,8 @@ fn apply_single_macro(
                 remaining = rest;
 
                 if macro_def.num_params == 0 {
-                    if !(args.len() == 1 && args[0].is_empty()) {
+                    // The parenthesis of a macro without parameters may hold white space and line ends
+                    if !(args.len() == 1 && args[0].iter().all(|t| t.0.is_whitespace())) {
                         return Err(PreprocessError::MacroExpectsDifferentNumberOfArguments);
                     }
                 } else if args.len() as u64 != macro_def.num_params {
